@@ -36,5 +36,6 @@ def jobs(tier, seed):
         sq = [j for j in sq if "_ex0_" not in j["name"]]
     J += sq
     J += mjobs.close_jobs(tier)
+    J += mjobs.destroy_jobs(tier)
     J += mjobs.write_event_jobs(tier)
     return J
